@@ -80,11 +80,18 @@ VerdictC04(q, multi) ==
   ELSE IF ~alone.occs[1].o THEN "ordinal-not-flagged"
   ELSE IF ~ValueMatches(alone.occs[1].v, d) THEN "ordinal-value-is-not-the-rank"
   ELSE ""
+\* C10, punctuation clause
+VerdictC10p(q, multi) ==
+  IF q.texts[1] # Cardinal(q.lang, q.ga, q.v) \o q.p \o Cardinal(q.lang, q.gb, q.v) THEN "tool-error-phrase-is-not-the-grammar's"
+  ELSE IF PanicIn(multi) THEN "panic"
+  ELSE IF Rw(multi[1]) # Dec(q.ga) \o q.p \o Dec(q.gb) THEN "punctuation-does-not-keep-two-numbers-apart"
+  ELSE ""
 V(r) == CASE Prop = "C01" -> VerdictC01(r.q, r.multi)
           [] Prop = "C16" -> VerdictC16(r.q, r.multi)
           [] Prop = "C05" -> VerdictC05(r.q, r.multi)
           [] Prop = "C08" -> VerdictC08(r.q, r.multi)
           [] Prop = "C04" -> VerdictC04(r.q, r.multi)
+          [] Prop = "C10" -> VerdictC10p(r.q, r.multi)
 Bad == {x \in {[l |-> l, i |-> Rec[l].i, k |-> 1, verdict |-> V(Rec[l])] : l \in 1..Len(Rec)} : x.verdict # ""}
 ASSUME JsonSerialize(IOEnv.OUT, [events |-> Len(Rec), pbad |-> SetToSeq(Bad), drift |-> <<>>])
 =============================================================================
